@@ -13,19 +13,43 @@ LEVEL = "other"
 
 
 def loop_nodes(g, head):
+    """The loop of `head`: the nodes nested in it that can start another cycle (reach the head again).  Statements of the
+    body that only lead out of the function (`if done: return x`, a raise arm) are not part of the loop: the edge into
+    them is an exit edge, exactly as if they were written after a `break`."""
+    cache = g.__dict__.setdefault("_loop_nodes", {}) if hasattr(g, "__dict__") else {}
+    if head in cache:
+        return cache[head]
+    syn = set(n for n in g.nodes if n is head or head in n.loops)
+    back = {head}
+    work = [head]
+    while work:
+        x = work.pop()
+        for p, _l in g.pred[x]:
+            if p in syn and p not in back:
+                back.add(p)
+                work.append(p)
+    out = [n for n in g.nodes if n in back]
+    cache[head] = out
+    return out
+
+
+def loop_body_nodes(g, head):
+    """Lexical membership: every node written inside the loop statement (including arms that leave the function)."""
     return [n for n in g.nodes if n is head or head in n.loops]
 
 
 def loop_exit_edges(g, head):
-    """Normal (non-exceptional) edges leaving the loop whose head is `head`."""
+    """Normal (non-exceptional) edges leaving the loop whose head is `head` towards a normal end of the function (edges into an
+    arm that can only raise are not exits of the loop, they abort it)."""
     inside = set(loop_nodes(g, head))
     out = []
     for n in inside:
         for d, l in g.succ[n]:
-            if l == "exc":
-                continue
+            if l == "exc" and not (head in d.loops):
+                continue          # propagates out of the loop statement: an abort, not an exit
             if d not in inside:
-                if n.kind == "stmt" and isinstance(n.ast, ast.Raise):
+                # (an exceptional edge into a handler written inside the loop that then leaves normally - `except: break` - is an exit)
+                if d is not g.exit and g.exit not in g.reach([d], exc=False, include_start=True):
                     continue
                 out.append((n, d, l))
     return out
